@@ -52,6 +52,7 @@ type Universe struct {
 	bg             atomic.Int64 // background goroutines of transactions begun through the harness
 	closed         bool
 	topoMu         sync.Mutex // serializes topology changes issued from concurrent RPC hooks
+	borders        [][]byte   // raw split keys currently in effect (guarded by topoMu)
 	panicMu        sync.Mutex
 	panics         []BackendPanic
 }
@@ -251,9 +252,14 @@ func (u *Universe) SplitAt(key []byte) bool {
 	if region == nil {
 		return false
 	}
-	if len(region.StartKey) > 0 {
-		// region keys of both mocks are memcomparable-encoded
-		if _, raw, err := codec.DecodeBytes(region.StartKey, nil); err == nil && bytes.Equal(raw, key) {
+	// region keys of both mocks are memcomparable-encoded; a key that already is a border must not be split
+	// again (mocktikv's lookup returns the left neighbour for a border key and would create an empty region)
+	enc := codec.EncodeBytes(nil, key)
+	if bytes.Equal(region.StartKey, enc) || bytes.Equal(region.EndKey, enc) {
+		return false
+	}
+	for _, b := range u.borders {
+		if bytes.Equal(b, key) {
 			return false
 		}
 	}
@@ -270,6 +276,7 @@ func (u *Universe) SplitAt(key []byte) bool {
 		leaderPeer = peerIDs[0]
 	}
 	u.Cluster.Split(region.Id, newRegionID, key, peerIDs, leaderPeer)
+	u.borders = append(u.borders, append([]byte(nil), key...))
 	u.Log.Notef("split region %d at %q -> %d", region.Id, key, newRegionID)
 	return true
 }
@@ -312,11 +319,22 @@ func (u *Universe) MergeAt(key []byte) bool {
 	if region == nil || len(region.EndKey) == 0 {
 		return false
 	}
-	right, _, _, _ := u.MockCl.GetRegionByKey(region.EndKey)
-	if right == nil || right.Id == region.Id {
+	// region keys are memcomparable-encoded, GetRegionByKey wants the raw key (it encodes it itself)
+	_, rawEnd, err := codec.DecodeBytes(region.EndKey, nil)
+	if err != nil {
+		return false
+	}
+	right, _, _, _ := u.MockCl.GetRegionByKey(rawEnd)
+	if right == nil || right.Id == region.Id || !bytes.Equal(right.StartKey, region.EndKey) {
 		return false
 	}
 	u.MockCl.Merge(region.Id, right.Id)
+	for i, b := range u.borders {
+		if bytes.Equal(b, rawEnd) {
+			u.borders = append(u.borders[:i], u.borders[i+1:]...)
+			break
+		}
+	}
 	u.Log.Notef("merge region %d <- %d", region.Id, right.Id)
 	return true
 }
